@@ -421,6 +421,67 @@ theorem stale_greater_offset_wins :
     (loadFrom exactMatch addrA st' [0, 1] [0, 1]).1 = .ok [114, 97] 100 0 ∧
     (loadFrom exactMatch addrA st' [1, 0] [1, 0]).1 = .ok [114, 97] 100 0 := by decide +kernel
 
+/-! ### 10b. clearing the stale checkpoints is interrupted (the target refuses a command, the tool is killed) -/
+
+/-- `ClearCheckpoint` got through the dbs `sub` only — any of them, in any order — before it stopped (an error reply makes it
+    return, `LoadCheckpoint` only warns). The target is still well-formed and the newest checkpoint is still THE newest:
+    untouched itself, and every db that was cleared now reads as "no offset". -/
+theorem interrupted_clear_keeps_newest (a : Bytes) (st : State) (hwf : WF st) (d : Int) (f : Fetched)
+    (hn : Newest a st d f) (sub : List Int) :
+    WF (clearAll a d sub st) ∧ Newest a (clearAll a d sub st) d f := by
+  obtain ⟨hown, hpos, hothers⟩ := hn
+  refine ⟨wf_clearAll a d sub st hwf, ?_, hpos, ?_⟩
+  · unfold own at hown ⊢
+    rw [hashOf_clearAll, if_neg (by simp)]
+    exact hown
+  · intro d' hne
+    obtain ⟨f', hf', hlt⟩ := hothers d' hne
+    unfold own at hf' ⊢
+    rw [hashOf_clearAll]
+    split
+    · obtain ⟨g, hg, hgo⟩ := ownCkpt_clearHash a _ f' hf'
+      exact ⟨g, hg, by omega⟩
+    · exact ⟨f', hf', hlt⟩
+
+/-- Hence a restart after an interrupted clearing resumes from the same checkpoint as the interrupted start did (and as an
+    undisturbed start would have): same run id, offset and db, for every iteration order of either run. Needs the newest
+    checkpoint to carry a run id — otherwise the first start reports "?" / db −1 and clears EVERY db, the newest included
+    (`counterexample_interrupted_clear_unknown_runid`). -/
+theorem interrupted_clear_reload (a : Bytes) (st : State) (hwf : WF st) (d : Int) (f : Fetched)
+    (hn : Newest a st d f) (hv : ¬ Refused f) (hrun : f.runid ≠ unknownRunId) (sub : List Int)
+    (r1 r2 : Ret) (s1 s2 : State)
+    (h1 : LoadRun exactMatch a st (r1, s1))
+    (h2 : LoadRun exactMatch a (clearAll a d sub st) (r2, s2)) :
+    r1 = .ok f.runid f.offset d ∧ r2 = r1 := by
+  have e1 := picks_newest a st s1 hwf d f hn hv r1 h1
+  obtain ⟨hwf', hn'⟩ := interrupted_clear_keeps_newest a st hwf d f hn sub
+  have e2 := picks_newest a _ s2 hwf' d f hn' hv r2 h2
+  simp only [reportedDb, if_neg hrun] at e1 e2
+  exact ⟨e1, e2.trans e1.symm⟩
+
+/-- the hypotheses of `interrupted_clear_reload` are satisfiable: `tieTarget` with db 3 moved ahead -/
+def staleTarget : State :=
+  [(0, ⟨[(runIdField addrA, [114, 48]), (versionField addrA, [49]), (offsetField addrA, [55])], 0⟩),
+   (3, ⟨[(runIdField addrA, [114, 51]), (versionField addrA, [49]), (offsetField addrA, [57])], 2⟩),
+   (5, ⟨[(offsetField addrA, [51])], 0⟩)]
+
+example : (loadFrom exactMatch addrA staleTarget [0, 3, 5] [5, 0, 3]).1 = .ok [114, 51] 9 3 ∧
+    (loadFrom exactMatch addrA (clearAll addrA 3 [5] staleTarget) [5, 3, 0] [0, 3, 5]).1 = .ok [114, 51] 9 3 := by
+  decide +kernel
+
+/-- Limit of the above: the newest checkpoint has no run id (offset 9 in db 3), an older one has (offset 7, db 0). The start
+    reports ("?", 9, −1) — a full sync follows — and sets out to clear every db. If that stops after db 3, the next start
+    finds the older checkpoint and reports ("r0", 7, 0). Between the two starts the tool is in a full sync whose own
+    checkpoints supersede it; the property does not speak about this window. -/
+def unknownRunIdTarget : State :=
+  [(0, ⟨[(runIdField addrA, [114, 48]), (versionField addrA, [49]), (offsetField addrA, [55])], 0⟩),
+   (3, ⟨[(versionField addrA, [49]), (offsetField addrA, [57])], 0⟩)]
+
+theorem counterexample_interrupted_clear_unknown_runid :
+    (loadFrom exactMatch addrA unknownRunIdTarget [0, 3] [3, 0]).1 = .ok unknownRunId 9 (-1) ∧
+    (loadFrom exactMatch addrA (clearAll addrA (-1) [3] unknownRunIdTarget) [0, 3] [0, 3]).1 = .ok [114, 48] 7 0 := by
+  decide +kernel
+
 /-! ### 11. HGETALL order, unreachability of ties inside a session -/
 
 theorem lookup_eq_some_iff (h : Hash) (hwf : HashWF h) (g v : Bytes) : h.lookup g = some v ↔ (g, v) ∈ h := by
